@@ -1172,6 +1172,114 @@ def run_r5(chk, F):
 
 
 
+def run_r6(chk, F, D):
+    """Dora's `.to_int64()` / `.to_int32()` sign-extend a signed source.  Reassembling a wide integer as
+    `(hi << 32) | lo` is only correct when every piece below the most significant one was zero-extended (a UInt8
+    source, or masked): otherwise a piece with its top bit set smears ones over everything above it.  The Rust side
+    of the same wire (`u32 as u64`) zero-extends, so the mirrored shape is right there and wrong here."""
+    r = chk.rule("C18.R6", "pkgs/boots: every integer reassembled from shifted pieces (`(a << k) | b …`) takes each "
+                           "piece below the top one from a zero-extending source (UInt8 widened, or masked)")
+    WIDEN = ("to_int64", "to_int32", "to_uint64")
+    ret = {}
+    per_file = {}
+    for f, t in D.items():
+        if not f.startswith("pkgs/boots/"):
+            continue
+        for fn in doraq.functions(t, f):
+            rt = fn.return_type()
+            if rt:
+                per_file.setdefault(f, {})[fn.name] = rt
+                ret.setdefault(fn.name, set()).add(rt)
+
+    def ty_of_call(f, name):
+        if name in per_file.get(f, {}):
+            return per_file[f][name]
+        ts = ret.get(name, set())
+        return next(iter(ts)) if len(ts) == 1 else None
+
+    def flatten_or(n, out):
+        if doraq.is_node(n) and n[0] == "PAREN_EXPR":
+            inner = doraq.nodes(n)
+            return flatten_or(inner[0], out) if inner else None
+        if doraq.is_node(n) and n[0] == "BIN_EXPR":
+            ops = [tk[1] for tk in doraq.toks(n)]
+            ns = doraq.nodes(n)
+            if "|" in ops and len(ns) == 2:
+                flatten_or(ns[0], out)
+                flatten_or(ns[1], out)
+                return
+        out.append(n)
+
+    def unparen(n):
+        while doraq.is_node(n) and n[0] == "PAREN_EXPR" and doraq.nodes(n):
+            n = doraq.nodes(n)[0]
+        return n
+
+    def shift_of(n):
+        n = unparen(n)
+        if doraq.is_node(n) and n[0] == "BIN_EXPR" and "<<" in [tk[1] for tk in doraq.toks(n)]:
+            ns = doraq.nodes(n)
+            v = doraq.lit_value(unparen(ns[1])) if len(ns) == 2 else None
+            return unparen(ns[0]), (v if isinstance(v, int) else "var")
+        return n, 0
+    nsites = 0
+    for f, t in sorted(D.items()):
+        if not f.startswith("pkgs/boots/"):
+            continue
+        for fn in doraq.functions(t, f):
+            if fn.body is None:
+                continue
+            lets = {}
+            for n in doraq.walk(fn.body):
+                if doraq.is_node(n) and n[0] == "LET":
+                    ns = doraq.nodes(n)
+                    if len(ns) >= 2 and ns[0][0] == "IDENT_PATTERN":
+                        lets[doraq.text(ns[0])] = ns[-1]
+            seen = set()
+            for n in doraq.walk(fn.body):
+                if not (doraq.is_node(n) and n[0] == "BIN_EXPR" and "|" in [tk[1] for tk in doraq.toks(n)]):
+                    continue
+                if id(n) in seen:
+                    continue
+                parts = []
+                flatten_or(n, parts)
+                for sub in doraq.walk(n):
+                    seen.add(id(sub))
+                pieces = [shift_of(x) for x in parts]
+                if not any(sh != 0 for (_e, sh) in pieces) or len(pieces) < 2:
+                    continue
+                nsites += 1
+                top = max((sh for (_e, sh) in pieces if isinstance(sh, int)), default=0)
+                key = "%s::%s:reassembly@%d" % (f, fn.qual, len(pieces))
+                bad = []
+                for (e, sh) in pieces:
+                    if sh == "var" or (isinstance(sh, int) and sh == top and sh != 0):
+                        continue
+                    src = e
+                    if doraq.is_node(src) and src[0] == "PATH_EXPR" and doraq.text(src) in lets:
+                        src = unparen(lets[doraq.text(src)])
+                    txt = doraq.text(src)
+                    if doraq.is_node(src) and src[0] == "BIN_EXPR" and "&" in [tk[1] for tk in doraq.toks(src)]:
+                        continue                                   # masked
+                    if doraq.is_node(src) and src[0] == "METHOD_CALL_EXPR" and doraq.ident(src) in WIDEN:
+                        inner = unparen(doraq.nodes(src)[0])
+                        ity = None
+                        if doraq.is_node(inner) and inner[0] in ("METHOD_CALL_EXPR", "CALL_EXPR"):
+                            ity = ty_of_call(f, doraq.Call(inner).name)
+                        # only a *known signed narrower* source is a violation; unknown receiver types are not judged
+                        if ity == "Int32" and doraq.ident(src) in ("to_int64", "to_uint64"):
+                            bad.append((doraq.text(e), txt, ity))
+                    # anything else (plain variables of the target width, literals) carries no widening
+                r.instance(key, sample={"pieces": [doraq.text(e)[:30] + ("<<%s" % sh if sh else "") for e, sh in pieces][:8]})
+                for (nm, txt, ity) in bad:
+                    r.violation("%s::%s:reassembly:%s:sign-extended-piece" % (f, fn.qual, nm),
+                                "`%s` (= `%s`, source type %s) is OR-ed in below a higher piece after a sign-extending "
+                                "widening: when its top bit is set the ones it carries overwrite the higher pieces — "
+                                "e.g. the Int64 constant 2147483648 is read back as -2147483648 and 0.1 as NaN by the "
+                                "optimizing compiler" % (nm, txt[:60], ity), "%s:%d" % (f, n[1]))
+    r.floor("shifted-piece reassembly sites in pkgs/boots", nsites, 4)
+
+
 def run(chk, F):
     r1 = chk.rule("C18.R1", "per opcode the writer, the Rust reader and the Dora reader agree on operand count, order "
                             "and encoding class; both readers fill the same fields; codecs agree on their constants")
@@ -1187,6 +1295,7 @@ def run(chk, F):
     from rules import c18_wire
     c18_wire.run_wire(chk, F, rid="C18.R4")
     run_r5(chk, F)
+    run_r6(chk, F, D)
     chk.assumptions += [
         "bincode's own Encode/Decode impls and its derive are trusted (C18 decides symmetry of what the repository "
         "writes, not decode(encode(p)) == p over all programs)",
